@@ -23,11 +23,11 @@ import (
 // ---------------------------------------------------------------------------------------------------
 
 type lkState struct {
-	locks []string // "DB.mu:W"
-	c     byte     // '-', '0', '1'
-	w, g, u byte   // '0','1'
-	m     byte     // '-','1','x'
-	e     byte     // '1': the activation was entered on an already committed batch
+	locks   []string // "DB.mu:W"
+	c       byte     // '-', '0', '1'
+	w, g, u byte     // '0','1'
+	m       byte     // '-','1','x'
+	e       byte     // '1': the activation was entered on an already committed batch
 }
 
 func parseLK(a string) lkState {
